@@ -35,12 +35,12 @@ INVARIANTS = ('TypeOK', 'NoLostUpdate', 'FailedContributeNothing', 'RepeatableOr
 
 # ------------------------------------------------------------------------------------------ TLC side
 def cfg(NS=2, NO=1, MaxOps=2, KA='opt', KB='opt', Modes=('opt',), OpSet=('R', 'W', 'Q', 'F'), LockModes=('wait',),
-        Ref=True, invariants=INVARIANTS, constraint=None, Modes1=None, OpSet1=None):
+        Ref=True, invariants=INVARIANTS, constraint=None, Modes1=None, OpSet1=None, MaxOpsN=None):
     """TLC configuration. OpSet/Modes: alphabet and session modes of all sessions; OpSet1/Modes1 (optional)
     override them for session 1 (e.g. session 1 reads/locks, the others write)."""
     def s(xs):
         return '{' + ', '.join('"%s"' % x for x in xs) + '}'
-    lines = ['SPECIFICATION Spec', 'CONSTANTS', ' NS = %d' % NS, ' NO = %d' % NO, ' MaxOps = %d' % MaxOps,
+    lines = ['SPECIFICATION Spec', 'CONSTANTS', ' NS = %d' % NS, ' NO = %d' % NO, ' MaxOps = %d' % MaxOps, ' MaxOpsN = %d' % (MaxOps if MaxOpsN is None else MaxOpsN),
              ' KA = %s' % s((KA,) if isinstance(KA, str) else KA), ' KB = %s' % s((KB,) if isinstance(KB, str) else KB), ' ModesN = %s' % s(Modes), ' OpSetN = %s' % s(OpSet),
              ' Modes1 = %s' % s(Modes if Modes1 is None else Modes1),
              ' OpSet1 = %s' % s(OpSet if OpSet1 is None else OpSet1),
